@@ -12,6 +12,7 @@ normalised definition), `CacheSound` the cache invariant (C17).
 import QuantityModel.Proofs.UnitOps
 import QuantityModel.Proofs.Invariants
 import QuantityModel.Proofs.Quantity
+import QuantityModel.Proofs.RegistryTerm
 namespace QM.Props.C02
 open QM QM.QState
 
@@ -101,6 +102,34 @@ theorem unit_pow_zero_one (d : Rounding) (u : Nat) :
     s.powUnit d u 0 = .ok (.num 1) ∧
     s.powUnit d u 1 = (s.reg.mkQty d (some (s.reg.unitCls u)) 1 u).map Val.qty := by
   constructor <;> simp [QState.powUnit]
+
+/-- **The resolution of a unit term is a function of what the term denotes.**
+Two terms with the same normal form resolve to the same `(factor, unit)` or
+both to "undefined" ... -/
+theorem resolution_depends_on_normal_form (r : RegState) (t₁ t₂ : Items)
+    (h : termNormalized r.unitEnv t₁ = termNormalized r.unitEnv t₂) :
+    r.amntAndUnit t₁ = r.amntAndUnit t₂ := by
+  unfold RegState.amntAndUnit RegState.unitFromTerm
+  have he : ∀ x, termEq r.unitEnv x t₁ = termEq r.unitEnv x t₂ := by
+    intro x; unfold termEq; rw [h]
+  simp only [he, h]
+
+/-- ... hence, by C07's equivalence, two (constructed) terms that denote the
+same rational factor and the same exponent for every base unit — `km·h` and
+`h·km`, `m/s` written either way, a product of three units bracketed either
+way — get the same result type, unit and factor, or are both undefined:
+whether a product is defined depends on its dimension and scale only. -/
+theorem resolution_depends_on_denotation (r : RegState)
+    (hd : DefsBaseOnly r.unitEnv) (hnc : BaseNoConv r.unitEnv) (t₁ t₂ : Items)
+    (hsep : KeysSeparate r.unitEnv t₁ t₂) (h₁ : Clean t₁) (h₂ : Clean t₂)
+    (hn : numVal (expanded r.unitEnv t₁) = numVal (expanded r.unitEnv t₂))
+    (he : ∀ a, expOf a (expanded r.unitEnv t₁) = expOf a (expanded r.unitEnv t₂)) :
+    r.amntAndUnit t₁ = r.amntAndUnit t₂ := by
+  apply resolution_depends_on_normal_form
+  have hk := keysNonneg_unitEnv r
+  have := (termEq_iff r.unitEnv hk hd hnc t₁ t₂ hsep h₁ h₂).mpr ⟨hn, he⟩
+  unfold termEq at this
+  simpa using this
 
 /-- the same for EVERY state reachable by declarations (valid or rejected, in
 any order) with a fresh operation cache: the directory invariant is not an
